@@ -147,6 +147,15 @@ def drive(eng, kind_, dt_e, r, mode):
             cont = eng.iterate()
             total += 1
             continue
+        if mode == "poll":
+            # the other public view of completion: the loop asks is_complete() instead of using what the loop call returned
+            k = r.choice([1, 1, 2, 3, 7])
+            eng.iterate_n(k) if r.random() < 0.7 else eng.run(0)
+            cont = not eng.is_complete()
+            total += k
+            calls.append("poll")
+            parts.append(measure())
+            continue
         if mode == "iterate_n":
             k = r.choice([1, 2, 3, 7, 50, 400])
             cont = eng.iterate_n(k)
@@ -283,6 +292,16 @@ def run_extras(case):
         counts["euler_seed_pairs"] = 1
         if digest(oa)[0] != digest(ob)[0]:
             bad.append({"what": "deterministic (Euler) result depends on the seed"})
+        if script.init_state_processing in ("auto", "none"):
+            # the deterministic algorithm reached through the public engine class with the other value of its `requires_molecules`
+            # flag (amounts handed over in molecules): still no resampling under 'auto' / 'none', still independent of the seed
+            import ctypes
+            from strengths.librdengine import LibRDEngine
+            mk = lambda: LibRDEngine(ctypes.CDLL(engines.install()), option="euler", description="description", requires_molecules=True)
+            oc, od = st.simulate_script(sa, mk()), st.simulate_script(sb, mk())
+            counts["euler_seed_pairs_molecule_flag"] = 1
+            if digest(oc)[0] != digest(od)[0]:
+                bad.append({"what": "deterministic (Euler) result depends on the seed when the engine object is built with requires_molecules=True"})
     else:
         counts["stochastic_seed_pairs"] = 1
         counts["stochastic_seed_pairs_that_differ"] = int(digest(oa)[0] != digest(ob)[0])
@@ -390,7 +409,7 @@ def reference(case):
     return run_variant({**case, "variant": "ref", "mode": "iterate", "history": None, "reuse": False})
 
 
-MODES = ["iterate_n", "run0", "run1", "run2", "run5", "run1000", "mix", "mix", "iterate"]
+MODES = ["iterate_n", "run0", "run1", "poll", "run5", "run1000", "mix", "run2", "iterate", "mix"]
 
 
 def main():
